@@ -90,10 +90,11 @@ impl IndicatorConfig for TrendStrengthIndex {
 
 	fn validate(&self) -> bool {
 		self.period > 1
+			&& self.period < PeriodType::MAX
 			&& self.zone >= 0.0
 			&& self.zone < 1.0
 			&& self.reverse_offset > 0
-			&& self.reverse_offset <= self.period
+			&& self.reverse_offset < self.period
 	}
 
 	fn set(&mut self, name: &str, value: String) -> Result<(), Error> {
